@@ -7,8 +7,8 @@ ID="$1"; CHK="$2"; shift 2
 D=$(mktemp -d /dev/shm/vsim-mut-XXXXXX) || exit 2
 cp -r /repo/src "$D/src"; mkdir -p "$D/tests"; ln -s /repo/tests/data "$D/tests/data"
 patch -p1 -s -d "$D" -i /verif/seeded/$ID/patch.diff || { echo "patch does not apply"; rm -rf "$D"; exit 2; }
-cd /verif; VERIF_REPO="$D" VERIF_REPO_SRC="$D/src" ./check $CHK --no-evidence "$@" > /tmp/seeded-$ID-$CHK.out 2>&1; rc=$?
+cd /verif; VERIF_REPLAY_DIR="$D/replays" VERIF_REPO="$D" VERIF_REPO_SRC="$D/src" ./check $CHK --no-evidence "$@" > /tmp/seeded-$ID-$CHK.out 2>&1; rc=$?
+RV=$(grep -h -o '"replay_verified_in_fresh_interpreter": [a-z]*' "$D"/replays/*.json 2>/dev/null | head -1 | sed 's/.*: //')
 rm -rf "$D"
-echo "$ID vs $CHK: exit=$rc $(grep -c '^VIOLATION' /tmp/seeded-$ID-$CHK.out) VIOLATION line(s); $(grep -m1 'violation: oracle' /tmp/seeded-$ID-$CHK.out | cut -c1-140)"
-rm -f /verif/replays/*.json
+echo "$ID vs $CHK: exit=$rc $(grep -c '^VIOLATION' /tmp/seeded-$ID-$CHK.out) VIOLATION line(s); replay_verified=$RV; $(grep -m1 'violation: oracle' /tmp/seeded-$ID-$CHK.out | cut -c1-140)"
 exit $rc
